@@ -31,6 +31,7 @@ func runC05(c *Ctx) {
 	c08R9As(c, c.R.Rule("R8", "K6 (= C08.R9) a filtered record stays absent: with filtered records present, Batch.setFlagNoErr/setFlagWithErr address recordStatuses only through the active-index map, entry by entry (a span marked Retry/Ack never overwrites a filtered slot)", 4))
 	c08R11As(c, c.R.Rule("R10", "K8/K3 (= C08.R11) v1: a filtered record stays absent behind a fan-out — Message.Clone carries every Message field DestinationNode.Run reads to decide on the write, and Destination.Write happens only on the !msg.filtered edge", 3))
 	c01R4As(c, c.R.Rule("R9", "K3 (= C01.R4) no silent re-write: DestinationTask.Do returns nil only when every written position was confirmed (it never converts a partially confirmed write into a retry of records already handed to Write)", 4))
+	c09R1As(c, c.R.Rule("R11", "K13 (= C09.R1) results stay aligned with their records: at each Process call boundary both directions of a length mismatch are diverted (refused / replaced / padded) before the reply is used positionally — a truncated or shifted reply would write a record twice or after a later one", 6))
 }
 
 func c05R1(c *Ctx) {
